@@ -59,4 +59,16 @@ CHECKS = {
         "text": "Class representatives with <=3 atoms (4 node labels) and 4 atoms (thorough: 5, and the symmetric families up to Q3/K33) are presented under every node permutation, several (thorough: all) insertion orders and both edge orientations to the four back-ends: the canonical graph must be numbered exactly 1..N and be an attribute-preserving relabelling, the signature deterministic (repeat, copy); for the exact back-end every presentation must give the identical canonical graph and signature (both copies of the module) and equal SynGraph objects; signatures of all graphs of the family are grouped and any signature shared by non-isomorphic graphs is a collision.",
         "note": "Alphabet: 2 elements x hcount {0,1}, 2 bond orders, undirected graphs. Invariance is required of 'nauty' only, as the statement says.",
     },
+    "C12": {
+        "ready": True, "engine": "E1",
+        "technique": "bounded-exhaustive enumeration of ordered pairs of small labelled graphs through both MCS matchers and every mode, vs. brute-force enumeration of all common induced subgraph mappings",
+        "text": "Class representatives (<=3 atoms; thorough 4) x all labelled graphs (<=3 atoms) over 2 elements x 2 bond orders, in both argument orders, with disjoint node ids: every returned mapping must be injective, label-preserving and induced both ways; in maximum mode all mappings have the brute-force maximum size and (without pruning) the result set equals the oracle's; the three direction accessors must be consistent and mutually inverse; a wildcard family exercises prune_wc (where pruning can flip which graph is smaller).",
+        "note": "Small-scope (<=4 atoms). With prune_automorphisms only validity, maximality and non-emptiness are required.",
+    },
+    "C13": {
+        "ready": True, "engine": "E1+E2",
+        "technique": "exhaustive enumeration of all 720 list orders / arrival orders of six-item pools (corpus reaction centres, relabelled copies, near-misses), every batch size and several template lists; partition compared with an independent isomorphism oracle after every arrival",
+        "text": "Pools of six reaction-centre graphs built from consecutive corpus centres (a centre, a relabelled copy, an order-changed and a charge-changed near-miss, two more centres) plus synthetic pools with tied elements/different charges are clustered by GraphCluster.fit and BatchCluster.fit under every list order, pre-grouping attribute none/invariant string, batch sizes {1,2,3,6,None}; incremental lib_check is run over every arrival order with the partition checked after each arrival; classification against given template lists (previous representatives, one dropped, ids shifted, ids with gaps) must use the representative's class or a fresh one.",
+        "note": "VERIF_SEED rotates which 20 corpus windows the quick tier uses (thorough: all 98); each selected pool is explored exhaustively.",
+    },
 }
